@@ -8,7 +8,8 @@ THEOREMS = ["quote_constants", "signing_bytes_injective", "hash_covers_signed_fi
             "any_field_mutation_fails", "claimed_identity_mutation_fails", "signature_mutation_fails",
             "timestamp_mutation_refuted", "timestamp_mutation_fails_outside_known_class",
             "verify_for_iff", "payees_are_parsed_ids", "expired_iff", "expired_true_iff",
-            "historical_flags_regression", "historical_verify_iff"]
+            "historical_flags_regression", "historical_verify_iff",
+            "history_invariant", "regression_flagged", "regression_between_refuted"]
 RULE = ("quotes built from real ed25519 keys: valid quotes; every single-field and random double-field "
         "mutation of the presented fields against the signed fields (content, timestamp at +-1 ns / same "
         "second / next second / +-1 h, each metrics field incl. None<->Some and msgpack format boundaries "
@@ -18,7 +19,9 @@ RULE = ("quotes built from real ed25519 keys: valid quotes; every single-field a
         "undecodable-payee, payee/key mismatch and junk-signature entries with the verifier inside and "
         "outside the payee list; expiry at now-{0,1,3598..3602,7200,86400}s-0.5s and now+{2.5s,1h}; "
         "historical pairs around live_time_diff = time_diff + margin {-1,0,+1}, regressions of live_time / "
-        "payment count, equal and future timestamps.  A case is distinct/non-trivial by (op, family, outcome)")
+        "payment count, equal and future timestamps; delivery sequences (2-9 steps, 1-3 interleaved peers, in-order / "
+        "shuffled / stale-then-newest / in-between / equal-timestamp, injected regressions) through the real "
+        "SwarmDriver::handle_local_cmd(QuoteVerification).  A case is distinct/non-trivial by (op, family, outcome)")
 ASSUMPTIONS = [
     "ed25519 signatures are modelled symbolically (Sig key msg | Junk): EUF-CMA plus 'a signature string is valid "
     "for at most one (key, message)'; the harness knows which key signed which bytes and reports that symbol",
@@ -26,9 +29,11 @@ ASSUMPTIONS = [
     "by the harness per case and the theorems quantify over every such key system",
     "SystemTime::now() is an explicit model argument; generated timestamps keep >= 0.2 s distance from every "
     "second boundary the code floors at, so real elapsed microseconds cannot flip a result",
-    "create_quote_for_storecost / verify_peer_quote are crate-private (need a running Network): the harness "
-    "signs exactly as create_quote_for_storecost does (bytes_for_signing + node key); the history map of "
-    "verify_peer_quote is not driven"]
+    "create_quote_for_storecost is crate-private (needs a running Network): the harness signs exactly as it does "
+    "(bytes_for_signing + node key)",
+    "verify_peer_quote is driven through a client-mode SwarmDriver and the guarded hook ant_networking::verif_hooks::cmd "
+    "(handle_local_cmd pass-through, quotes_history / node_issues readers); the harness clears the peer's issue list "
+    "around every delivery because record_node_issue records at most one issue per ten seconds"]
 
 NS = 10 ** 9
 MASK = (1 << 64) - 1
@@ -371,6 +376,66 @@ def gen_historical(rng, n):
     return cases
 
 
+def hist_quote(rng, secs_ago, lt, rpc):
+    f = rnd_fields(rng)
+    f["ts"] = {"rel_ns": -(secs_ago * NS + 500000000)}
+    f["m"]["lt"], f["m"]["rpc"] = lt, rpc
+    return quote_spec(f, {"raw": ""}, {"raw": ""})
+
+
+def gen_history(rng, n):
+    """delivery sequences for SwarmDriver::verify_peer_quote: 1-3 peers, 2-9 deliveries, timestamps out of
+    order; the metrics follow a per-peer 'true' monotone history with injected regressions"""
+    cases = []
+    for i in range(n):
+        npeers = rng.choice([1, 1, 2, 3])
+        steps = rng.choice([2, 3, 3, 4, 5, 6, 9])
+        fam = rng.choice(["in-order", "shuffled", "stale-overwrite", "between", "equal-ts", "random"])
+        ds = []
+        for p in range(npeers):
+            # an honest timeline: (seconds ago, live_time, payments), newest last
+            ages = sorted(rng.sample(range(5, 5000), steps), reverse=True)
+            lt0, rpc0 = rng.randrange(0, 50), rng.randrange(0, 50)
+            timeline = []
+            for j, age in enumerate(ages):
+                lt0 += rng.choice([0, 0, 1])
+                rpc0 += rng.choice([0, 1, 3])
+                timeline.append([age, lt0, rpc0])
+            if fam == "equal-ts" and len(timeline) > 1:
+                timeline[1][0] = timeline[0][0]
+            if fam != "in-order" or rng.random() < 0.3:
+                # inject regressions: some entry reports less than an earlier one
+                for _ in range(rng.choice([0, 1, 1, 2])):
+                    j = rng.randrange(1, len(timeline))
+                    k = rng.choice(["lt", "rpc"])
+                    if k == "lt":
+                        timeline[j][1] = max(timeline[rng.randrange(0, j)][1] - rng.choice([1, 2]), 0)
+                    else:
+                        timeline[j][2] = max(timeline[rng.randrange(0, j)][2] - rng.choice([1, 5]), 0)
+            order = list(range(len(timeline)))
+            if fam == "shuffled" or fam == "random":
+                rng.shuffle(order)
+            elif fam == "stale-overwrite" and len(order) >= 3:
+                # newest-but-one first, then an old one, then the newest
+                order = [len(order) - 2, 0, len(order) - 1] + order[1:-2]
+            elif fam == "between" and len(order) >= 3:
+                order = [0, len(order) - 1] + order[1:-1]
+            for j in order:
+                age, lt, rpc = timeline[j]
+                ds.append({"peer": {"key": p}, "q": hist_quote(rng, age, lt, rpc)})
+        if npeers > 1:
+            # interleave the peers' deliveries, keeping each peer's own order
+            per = {}
+            for d in ds:
+                per.setdefault(d["peer"]["key"], []).append(d)
+            ds = []
+            while any(per.values()):
+                k = rng.choice([k for k, v in per.items() if v])
+                ds.append(per[k].pop(0))
+        cases.append({"op": "history", "family": fam, "nkeys": NKEYS, "deliveries": ds})
+    return cases
+
+
 def gen(ctx):
     rng = ctx.rng
     quick = ctx.tier == "quick"
@@ -378,6 +443,7 @@ def gen(ctx):
     cases += gen_proof(rng, 160 if quick else 3000)
     cases += gen_expiry(rng, 60 if quick else 600)
     cases += gen_historical(rng, 160 if quick else 3000)
+    cases += gen_history(rng, 150 if quick else 2500)
     return cases
 
 
@@ -480,6 +546,34 @@ def oracle(c, o):
         if e0 == e1 and o["r"] != e0:
             v.append(("expiry", "has_expired = %s for a quote dated now%+.3f s (window %d s, future dates expire)"
                       % (o["r"], c["rel"] / NS, 3600)))
+    elif c["op"] == "history":
+        acc = {}      # peer -> accepted (timestamp, live_time, payments)
+        for i, (d, st) in enumerate(zip(c["deliveries"], o["steps"])):
+            p = d["peer"]["key"]
+            t, lt, rpc = ts_ns(st["ts"]), d["q"]["m"]["lt"], d["q"]["m"]["rpc"]
+            if not st["ok"]:
+                v.append(("history-handler", "handle_local_cmd(QuoteVerification) failed at step %d" % i))
+            earlier = acc.get(p, [])
+            worse_than = [a for a in earlier if a[0] < t and (lt < a[1] or rpc < a[2])]
+            if worse_than and not st["flagged"]:
+                a = worse_than[0]
+                what = ("step %d: peer %d delivers a quote dated %+.1f s after an accepted one but reporting less "
+                        "(live_time %d -> %d, payments %d -> %d) and is not flagged"
+                        % (i, p, (t - a[0]) / NS, a[1], lt, a[2], rpc))
+                if any(h[0] > t for h in earlier):
+                    v.append(("regression-older-than-newest", what + "; a newer accepted quote exists, and only that one is kept as reference"))
+                else:
+                    v.append(("history-regression-missed", what))
+            if st["flagged"] and not any(x == "BadQuoting" for x in st["issues"]):
+                v.append(("history-issue-kind", "step %d recorded %s" % (i, st["issues"])))
+            if not st["flagged"]:
+                acc.setdefault(p, []).append((t, lt, rpc))
+            # the reference kept for the peer is one of its accepted quotes, the newest of them
+            if st["stored_ts"] is not None and acc.get(p):
+                newest = max(a[0] for a in acc[p])
+                if ts_ns(st["stored_ts"]) != newest:
+                    v.append(("history-reference", "step %d: the reference kept for peer %d is dated %d, the newest accepted quote %d"
+                              % (i, p, ts_ns(st["stored_ts"]), newest)))
     elif c["op"] == "historical":
         ta, tb = ts_ns(o["a"]["ts"]), ts_ns(o["b"]["ts"])
         ma, mb = c["a"]["m"], c["b"]["m"]
@@ -558,6 +652,13 @@ def model_term(c, o):
     if c["op"] == "expiry":
         return "agree_signing %s %s && agree_expired %s %s %s" % (
             c_quote(c["q"], o["q"]), cbytes(o["q"]["bfs"]), cN(ts_ns(o["now"])), c_quote(c["q"], o["q"]), cbool(o["r"]))
+    if c["op"] == "history":
+        steps = []
+        for d, st in zip(c["deliveries"], o["steps"]):
+            q = c_quote(d["q"], {"ts": st["ts"], "pk": "", "sig": ""})
+            steps.append("((%s, %s, %s), (%s, %s))" % (cN(ts_ns(st["now"])), cN(d["peer"]["key"]), q, cbool(st["flagged"]),
+                                                      copt(st["stored_ts"], lambda t: cN(ts_ns(t)))))
+        return "agree_history [] %s" % clist(steps)
     if c["op"] == "historical":
         a, b = c_quote(c["a"], o["a"]), c_quote(c["b"], o["b"])
         return "agree_historical %s %s %s %s %s && agree_historical %s %s %s %s %s" % (
@@ -574,6 +675,10 @@ def show(c, o):
         return "has_expired %s %s" % (cN(ts_ns(o["now"])), c_quote(c["q"], o["q"]))
     if c["op"] == "historical":
         return "historical_verify %s %s %s %s" % (cN(ts_ns(o["now"])), cN(ts_ns(o["now"])), c_quote(c["a"], o["a"]), c_quote(c["b"], o["b"]))
+    if c["op"] == "history":
+        ds = ["(%s, %s, %s)" % (cN(ts_ns(st["now"])), cN(d["peer"]["key"]), c_quote(d["q"], {"ts": st["ts"], "pk": "", "sig": ""}))
+              for d, st in zip(c["deliveries"], o["steps"])]
+        return "snd (run_deliveries [] %s)" % clist(ds)
     qs = [c_quote(item["q"], qo) for item, qo in zip(c["quotes"], o["quotes"])]
     K = c_keysys(o["quotes"], [(qo["e"], qo["e_peer"]) for qo in o["quotes"]])
     proof = clist([cpair(cbytes(qo["e"]), q) for qo, q in zip(o["quotes"], qs)])
@@ -589,6 +694,8 @@ def nontrivial(c, o):
         return (c["op"], len(c["quotes"]), o["verify"], len(o["payees"]), o["expired"])
     if c["op"] == "expiry":
         return (c["op"], c.get("family"), o["r"], min(abs(c["rel"]) // NS, 3700))
+    if c["op"] == "history":
+        return (c["op"], c.get("family"), len(c["deliveries"]), tuple(st["flagged"] for st in o["steps"]))
     return (c["op"], c.get("family"), o["r"], o["newer"])
 
 
@@ -606,6 +713,7 @@ def run(ctx):
     cases = ctx.corpus() + ([] if ctx.replay else gen(ctx))
     ctx.pipeline(cases, binary, oracle, model_term, IMPORTS, nontrivial=nontrivial, show=show, shard_size=120,
                  relation="PaymentQuote::{bytes_for_sig,hash,peer_id,check_is_signed_by_claimed_peer,has_expired,"
-                          "is_newer_than,historical_verify}, ProofOfPayment::{verify_for,payees,quotes_by_peer,has_expired} "
-                          "== Quote.{bytes_for_signing,hash_preimage,quote_peer_id,check_signed,has_expired,is_newer_than,"
-                          "historical_verify,verify_for,payees,quotes_by_peer,proof_has_expired}")
+                          "is_newer_than,historical_verify}, ProofOfPayment::{verify_for,payees,quotes_by_peer,has_expired}, "
+                          "SwarmDriver::verify_peer_quote == Quote.{bytes_for_signing,hash_preimage,quote_peer_id,check_signed,"
+                          "has_expired,is_newer_than,historical_verify,verify_for,payees,quotes_by_peer,proof_has_expired,"
+                          "verify_peer_quote}")
